@@ -1470,3 +1470,20 @@ M("C16", "trunc-micro", P2T,
     unix_nano = unix_timestamp * 10**9 + dt.microsecond * 10**3""",
   """    unix_nano = int(dt.timestamp() * 10**6) * 10**3""", "R16.2",
   "float microseconds truncated: about 1% of instants come out 1 us early")
+
+# ---- fraction digits read positionally (seed C16-c)
+_P2T_BODY_OLD = '''    dt = datetime.fromisoformat(iso_timestamp.rstrip("Z")).replace(
+        tzinfo=timezone.utc
+    )'''
+MM("C16", "frac-digits-as-int", [
+    (P2T, _P2T_BODY_OLD,
+     '''    seconds, _, digits = iso_timestamp.rstrip("Z").partition(".")
+    dt = datetime.fromisoformat(seconds).replace(tzinfo=timezone.utc)'''),
+    (P2T, "dt.microsecond * 10**3", "int(digits or 0) * 10**3")],
+   "R16.1", "fraction digits read as a microsecond count ('.5' -> 5 us)")
+TT("C16", "twin-frac-digits-padded", [
+    (P2T, _P2T_BODY_OLD,
+     '''    seconds, _, digits = iso_timestamp.rstrip("Z").partition(".")
+    dt = datetime.fromisoformat(seconds).replace(tzinfo=timezone.utc)'''),
+    (P2T, "dt.microsecond * 10**3", 'int(digits.ljust(6, "0")) * 10**3')],
+   "fraction digits padded to six places before int()")
